@@ -80,8 +80,15 @@ def r1_pairing(idx, r):
     rs = idx.method(GC + ".ThirdCoreHexToFullCoreChanger", "restorePreviousGeometry")
     loop = next((n for n in walk_local(rs.node) if isinstance(n, ast.For) and norm(n.iter) == "self._newAssembliesAdded"), None)
     rm = next((c for c in iter_calls(loop) if call_attr(c) == "removeAssembly"), None) if loop is not None else None
-    ok = rm is not None and norm(rm.args[0]) == norm(loop.target) and any(k.arg == "discharge" and norm(k.value) == "False" for k in rm.keywords) and not any(isinstance(x, ast.If) for x in walk_local(loop))
+    ok = rm is not None and norm(rm.args[0]) == norm(loop.target) and any(k.arg == "discharge" and norm(k.value) == "False" for k in rm.keywords) and not path_conditions(ast.Module(body=loop.body, type_ignores=[]), rm)
     r.require(ok, "restore:removes-exactly-the-added", rs, node=rm, msg="exactly the recorded assemblies are removed, without discharging them")
+    # ... and the zone entries convert() made for them are withdrawn
+    cvz = idx.method(GC + ".ThirdCoreHexToFullCoreChanger", "convert")
+    if any(call_attr(c) == "addLoc" for c in iter_calls(cvz.node)):
+        rz = [c for c in (iter_calls(loop) if loop is not None else []) if call_attr(c) in ("removeLoc", "removeLocs", "removeItem")]
+        r.require(bool(rz) and rm is not None and rz[0].lineno < rm.lineno, "restore:withdraws-zone-entries", rs, node=rz[0] if rz else rm,
+                  msg="convert() enters every new assembly's location into its source's zone, but the undo never removes them: after restore the zone lists locations of the full core that no longer exist "
+                      "(19 zone locations instead of 7)")
     symr = next((s for s in iter_stores(rs.node) if s.chain == "r.core.symmetry"), None)
     r.require(symr is not None and norm(symr.value) == "geometry.SymmetryType.fromAny(self.EXPECTED_INPUT_SYMMETRY)", "restore:symmetry", rs, msg="the third-core symmetry is restored")
     r.require(any(dotted(c.func) == "self.reset" for c in iter_calls(rs.node)) and rs.node.body[-1] is not None and norm(rs.node.body[-1]) == "self.reset()", "restore:resets", rs, msg="the record of added assemblies is cleared at the end")
